@@ -44,7 +44,8 @@ def run(rep, tier, seed):
                        "code of the created object, class its code maps back to - validated by TLC against the frozen "
                        "registry of Registry.tla (FactoryConsistent); default-constructed objects of every class built in "
                        "heap memory pre-filled with 4 patterns must have identical members and encodings; write/read-back "
-                       "of default objects is covered by the FRAME records (class decoded = class written)")
+                       "of default objects: FRAME records validated against DefaultRoundTrip (written under a code of the class, "
+                       "read back completely as the same class)")
     exes = vlib.build("plain", ["drv_codec"])
     results, other, rc, err = vlib.run_driver(exes["drv_codec"], ["registry", seed], timeout=600)
     if rc != 0:
@@ -79,10 +80,16 @@ def run(rep, tier, seed):
         rep.violation("frames:crash", "codec driver failed: %s" % err, err)
         return
     defaults = [r for r in frecs if str(r.get("shape", "")).endswith("-default")]
-    for r in defaults:
-        if not r["crashed"] and (r["decCls"] != r["cls"] or r["otField"] < 0):
+    byname = {r["name"]: r for r in defaults}
+    for nm in codec.validate(rep, defaults, "c17d_" + tier, "C17D"):
+        r = byname[nm]
+        if r["crashed"] or r["decCls"] != r["cls"] or r["otField"] < 0:
             rep.violation("registry:%s:ctor" % r["cls"], "default-constructed %s is written under code %s, which reads "
                           "back as %s" % (r["cls"], r["otField"], r["decCls"]), r)
+        else:
+            rep.violation("registry:%s:readback" % r["cls"], "default-constructed %s (code %s): %d bytes written, reading "
+                          "them back consumes %s (stream good: %s, exception: %s)"
+                          % (r["cls"], r["otField"], r["emitted"], r["consumed"], r["decGood"], r["decThrew"]), r)
     rep.cov["default_objects_roundtripped"] = len(defaults)
     rep.cov["distinct_nontrivial"] = len(recs) + len(defaults)
     rep.assumptions += ["the registry is the annotated include list of File.h at the pinned commit, frozen in Registry.tla"]
